@@ -171,5 +171,194 @@ Lemma visit_body : forall c (v : p3) q, q <> [] ->
   (Ret tt, st_of (q ++ [lin (plast q) (abs3 v) true true (m_speed (mcfg_of c))]) 1).
 Proof. intros c [[x y] z] q Hq. unfold bind. cbn [row_of as_optlist aol_val map]. now rewrite (linear_ok c q 1 _ _ _ "ABS" true 1 None Hq eq_refl). Qed.
 
-(* ablation / box / meander are translated (SrcMk.v compiles against MkState.v on every run: any construct outside the subset, or
-   an ill-typed reading, fails the tie) but their equivalence with Path/Marker.v is not proved here: correspondence only. *)
+Lemma plast_started : forall a b (V : list lpt), V <> [] -> plast (a :: b :: V) = last V b.
+Proof. intros a b [|v V] H; [congruence|]. unfold plast. change (last (a :: b :: v :: V) dpt) with (last (v :: V) dpt). apply last_cons_indep. Qed.
+
+Lemma abl_shape : forall (a b : lpt) (V : list lpt) (F G : lpt -> lpt) sc, V <> [] ->
+  a :: b :: ((V ++ [F (plast (a :: b :: V))]) ++ [G (plast (a :: b :: V ++ [F (plast (a :: b :: V))]))]) ++
+     end_blk (pfirst (a :: b :: (V ++ [F (plast (a :: b :: V))]) ++ [G (plast (a :: b :: V ++ [F (plast (a :: b :: V))]))]))
+             (plast (a :: b :: (V ++ [F (plast (a :: b :: V))]) ++ [G (plast (a :: b :: V ++ [F (plast (a :: b :: V))]))])) sc
+  = a :: b :: (V ++ [F (last V b); G (F (last V b))]) ++ end_blk a (last (V ++ [F (last V b); G (F (last V b))]) b) sc.
+Proof.
+  intros a b V F G sc HV. rewrite (plast_started a b V HV). set (L := last V b).
+  assert (E1 : plast (a :: b :: V ++ [F L]) = F L) by (change (a :: b :: V ++ [F L]) with ((a :: b :: V) ++ [F L]); apply plast_app).
+  rewrite E1.
+  assert (E2 : (V ++ [F L]) ++ [G (F L)] = V ++ [F L; G (F L)]) by (rewrite <- app_assoc; reflexivity).
+  rewrite E2.
+  assert (E3 : plast (a :: b :: V ++ [F L; G (F L)]) = G (F L))
+    by (change (a :: b :: V ++ [F L; G (F L)]) with ((a :: b :: V) ++ F L :: [G (F L)]); rewrite plast_app; reflexivity).
+  rewrite E3. rewrite (last_app_cons V (F L) [G (F L)] b). reflexivity.
+Qed.
+
+Lemma ablation_plain_model : forall cm v0 vs,
+  ablation cm (v0 :: vs) None =
+  let a := mk v0 (m_speed_pos cm) false in let b := mk v0 (m_speed_pos cm) true in
+  let V := visit cm b (v0 :: vs) in let vl := last vs v0 in let L := last V b in
+  a :: b :: (V ++ [lin L (abs3 vl) true true (m_speed cm); lin (lin L (abs3 vl) true true (m_speed cm)) (abs3 vl) true false (m_speed cm)]) ++
+  end_blk a (last (V ++ [lin L (abs3 vl) true true (m_speed cm); lin (lin L (abs3 vl) true true (m_speed cm)) (abs3 vl) true false (m_speed cm)]) b)
+          (m_speed_closed cm).
+Proof. intros cm v0 vs. unfold ablation, trace, copies. cbn [app]. rewrite app_nil_r. destruct vs; reflexivity. Qed.
+
+Theorem SRC_C14_ablation_plain : forall c v0 vs,
+  src_ablation c (map row_of (v0 :: vs)) None mk_s0 = done (ablation (mcfg_of c) (v0 :: vs) None) 1.
+Proof.
+  intros c v0 vs. unfold src_ablation. cbn [map truthy truthy_list negb]. cbv zeta.
+  unfold bind at 1. cbn [ret]. unfold bind at 1.
+  destruct v0 as [[x0 y0] z0]. cbn [row_of lp_start mk_s0 mk_path set_path mk_sign].
+  change ([x0; y0; z0] :: map row_of vs) with (map row_of ((x0, y0, z0) :: vs)).
+  change (set_path (start_blk (x0, y0, z0) (mk_speed_pos c)) mk_s0) with (st_of (start_blk (x0, y0, z0) (mk_speed_pos c)) 1).
+  unfold bind at 1. rewrite for_each_map.
+  rewrite (for_each_blocks _ _ (fun v last => [lin last (abs3 v) true true (m_speed (mcfg_of c))]));
+    [| discriminate | intros a E; apply (f_equal (fun f => f dpt)) in E; discriminate | intros a q Hq; apply visit_body; exact Hq].
+  rewrite visit_fold by discriminate.
+  set (V := visit (mcfg_of c) _ _).
+  assert (HV : start_blk (x0, y0, z0) (mk_speed_pos c) ++ V <> []) by discriminate.
+  change [x0; y0; z0] with (row_of (x0, y0, z0)). rewrite last_map_row. set (vl := last vs (x0, y0, z0)).
+  assert (Ev : forall sh q, q <> [] -> lp_linear c (as_optlist (row_of vl)) "ABS" sh None (st_of q 1)
+                 = (Ret tt, st_of (q ++ [lin (plast q) (abs3 vl) true (negb (Z.eqb sh 0)) (m_speed (mcfg_of c))]) 1)).
+  { intros sh q Hq. destruct vl as [[a b] d]. cbn [row_of as_optlist aol_val map]. now rewrite (linear_ok c q 1 _ _ _ "ABS" true sh None Hq eq_refl). }
+  unfold bind at 1. cbn [ret]. unfold bind at 1. rewrite (Ev 1%Z _ HV).
+  unfold bind at 1. cbn [ret]. unfold bind at 1.
+  rewrite (Ev 0%Z) by (intros E; apply app_eq_nil in E; destruct E; discriminate).
+  unfold bind at 1. cbn [for_each ret]. unfold bind, lp_end. cbn [mk_path st_of start_blk app].
+  unfold done, ret, set_path. cbn [mk_path mk_sign]. f_equal. f_equal.
+  rewrite ablation_plain_model. cbv zeta.
+  assert (HVne : V <> []) by (unfold V; cbn [visit]; discriminate).
+  exact (abl_shape (mk (x0, y0, z0) (mk_speed_pos c) false) (mk (x0, y0, z0) (mk_speed_pos c) true) V
+           (fun l => lin l (abs3 vl) true true (m_speed (mcfg_of c))) (fun l => lin l (abs3 vl) true false (m_speed (mcfg_of c)))
+           (mk_speed_closed c) HVne).
+Qed.
+Print Assumptions SRC_C14_ablation_plain.
+
+
+(* ---------------- box: the ablation line through the corners of the rectangle ---------------- *)
+Theorem SRC_C14_box : forall c x y z w h,
+  src_box c [x; y; z] w h mk_s0 =
+  done (ablation (mcfg_of c) [(x, y, z); (x + Qabs w, y + 0, z + 0); (x + Qabs w, y + Qabs h, z + 0); (x + 0, y + Qabs h, z + 0); (x, y, z)] None) 1.
+Proof.
+  intros c x y z w h. unfold src_box. cbn [truthy truthy_list negb]. cbv zeta. unfold bind.
+  change [[x; y; z]; pyadd [x; y; z] [pyabs w; of_int 0; of_int 0]; pyadd [x; y; z] [pyabs w; pyabs h; of_int 0];
+          pyadd [x; y; z] [of_int 0; pyabs h; of_int 0]; [x; y; z]]
+    with (map row_of [(x, y, z); (x + Qabs w, y + 0, z + 0); (x + Qabs w, y + Qabs h, z + 0); (x + 0, y + Qabs h, z + 0); (x, y, z)]).
+  rewrite SRC_C14_ablation_plain. reflexivity.
+Qed.
+Print Assumptions SRC_C14_box.
+
+(* the corners as Path/Marker.box names them: the same points (adding 0 changes the fraction, not the number) *)
+Definition p3_eq (a b : p3) : Prop := let '(x, y, z) := a in let '(x', y', z') := b in x == x' /\ y == y' /\ z == z'.
+Theorem SRC_C14_box_corners : forall x y z w h,
+  Forall2 p3_eq [(x, y, z); (x + Qabs w, y + 0, z + 0); (x + Qabs w, y + Qabs h, z + 0); (x + 0, y + Qabs h, z + 0); (x, y, z)]
+                [(x, y, z); (x + Qabs w, y, z); (x + Qabs w, y + Qabs h, z); (x, y + Qabs h, z); (x, y, z)].
+Proof. intros. repeat constructor; cbn; try reflexivity; ring. Qed.
+Print Assumptions SRC_C14_box_corners.
+
+(* ---------------- meander ---------------- *)
+Definition tolist3 (t : option Q * option Q * option Q) : list (option Q) := let '(a, b, d) := t in [a; b; d].
+
+Lemma pfirst_app : forall q m, q <> [] -> pfirst (q ++ m) = pfirst q.
+Proof. intros [|a q] m H; [congruence|reflexivity]. Qed.
+
+Lemma passes_cons : forall cm n last ax sg w d, exists x m, passes cm n last ax sg w d = x :: m.
+Proof. intros cm [|n] last ax sg w d; cbn [passes]; eauto. Qed.
+
+Lemma sign_next_at : forall q sg, sign_next (st_of q sg) = (Ret sg, st_of q (- sg)).
+Proof. reflexivity. Qed.
+
+Lemma linear3_ok : forall c p sg t sh, p <> [] ->
+  lp_linear c (tolist3 t) "INC" sh None (st_of p sg) =
+  (Ret tt, st_of (p ++ [lin (plast p) t false (negb (Z.eqb sh 0)) (mk_speed c)]) sg).
+Proof. intros c p sg [[a b] d] sh Hp. cbn [tolist3]. now rewrite (linear_ok c p sg a b d "INC" false sh None Hp eq_refl). Qed.
+
+(* the passes, the last line and end(), from any started path and any state of the sign generator *)
+Lemma passes_loop : forall c ax w d (l : list Z) q sg, q <> [] ->
+  exists sg',
+  (bind (for_each l tt (fun (_ : Z) (_ : unit) =>
+           sgn <- sign_next ;; lp_linear c (tolist3 (mv ax (sgn * w) 0)) "INC" 1 None ;;; lp_linear c (tolist3 (mv ax 0 d)) "INC" 1 None ;;; ret tt))
+        (fun _ => sgn <- sign_next ;; lp_linear c (tolist3 (mv ax (sgn * w) 0)) "INC" 1 None ;;; lp_end c ;;; ret tt)) (st_of q sg)
+  = (Ret tt, st_of (q ++ passes (mcfg_of c) (List.length l) (plast q) ax sg w d ++
+                    end_blk (pfirst q) (last (passes (mcfg_of c) (List.length l) (plast q) ax sg w d) (plast q)) (mk_speed_closed c)) sg').
+Proof.
+  intros c ax w d l. induction l as [|z l IH]; intros q sg Hq.
+  - exists (- sg). cbn [for_each List.length passes]. unfold bind at 1. cbn [ret]. unfold bind at 1. rewrite sign_next_at.
+    unfold bind at 1. rewrite (linear3_ok c q (- sg) _ 1 Hq). unfold bind, lp_end. cbn [mk_path st_of].
+    destruct (q ++ [lin (plast q) (mv ax (sg * w) 0) false (negb (1 =? 0)%Z) (mk_speed c)]) eqn:E;
+      [apply app_eq_nil in E; destruct E; discriminate|]. rewrite <- E. unfold ret, set_path, st_of. cbn [mk_path mk_sign].
+    f_equal. f_equal. rewrite <- app_assoc. f_equal. cbn [app]. f_equal.
+    rewrite (pfirst_app q _ Hq), plast_app. reflexivity.
+  - cbn [for_each List.length passes]. unfold bind at 1. unfold bind at 1. unfold bind at 1. rewrite sign_next_at.
+    unfold bind at 1. rewrite (linear3_ok c q (- sg) _ 1 Hq).
+    assert (N1 : forall (l : list lpt) x, l ++ [x] <> []) by (intros l0 x E; apply app_eq_nil in E; destruct E; discriminate).
+    unfold bind at 1. rewrite (linear3_ok c _ (- sg) _ 1 (N1 _ _)). cbn [ret].
+    set (p := lin (plast q) (mv ax (sg * w) 0) false (negb (1 =? 0)%Z) (mk_speed c)).
+    rewrite plast_app. cbn [last]. set (q' := lin p (mv ax 0 d) false (negb (1 =? 0)%Z) (mk_speed c)).
+    destruct (IH ((q ++ [p]) ++ [q']) (- sg) (N1 _ _)) as [sg' IH']. exists sg'.
+    unfold bind at 1 in IH'. rewrite IH'. f_equal. f_equal.
+    rewrite <- !app_assoc. cbn [app]. f_equal. f_equal. f_equal.
+    assert (Ep : plast (q ++ [p; q']) = q') by (rewrite plast_app; reflexivity). rewrite Ep.
+    subst p q'. set (P := passes _ _ _ _ _ _ _).
+    assert (HP : exists x m, P = x :: m) by apply passes_cons. destruct HP as [x [m Em]]. rewrite Em.
+    f_equal. f_equal; [apply pfirst_app; exact Hq|apply last_cons_indep].
+Qed.
+
+Lemma zrange_length : forall n, List.length (zrange 0 n) = Z.to_nat n.
+Proof. intros n. unfold zrange. rewrite map_length, seq_length. now rewrite Z.sub_0_r. Qed.
+
+(* one continuous stroke of floor(|extent| / spacing) + 1 parallel lines stepping from the initial towards the final position;
+   [ax] = true: lines parallel to x (orientation 'x' in any case), false: parallel to y *)
+Theorem SRC_C14_meander : forall c xi yi zi fin xf yf w delta orientation ax,
+  fin = [xf; yf] \/ (exists zf, fin = [xf; yf; zf]) ->
+  (lower orientation = "x" /\ ax = true) \/ (lower orientation = "y" /\ ax = false) ->
+  fst (src_meander c [xi; yi; zi] fin w delta orientation mk_s0) = Ret tt /\
+  mk_path (snd (src_meander c [xi; yi; zi] fin w delta orientation mk_s0)) = meander (mcfg_of c) (xi, yi, zi) (xf, yf) w delta ax.
+Proof.
+  intros c xi yi zi fin xf yf w delta orientation ax Hfin Hor.
+  assert (Hs : start_blk (xi, yi, zi) (mk_speed_pos c) <> []) by discriminate.
+  destruct Hor as [[Ho Ha]|[Ho Ha]]; subst ax.
+  - destruct (passes_loop c true w (qsign (yf - yi) * delta) (zrange 0 (Qfloor (Qabs (yf - yi) / delta)))
+                (start_blk (xi, yi, zi) (mk_speed_pos c)) 1 Hs) as [sg' H].
+    rewrite zrange_length in H.
+    assert (E : src_meander c [xi; yi; zi] fin w delta orientation mk_s0 = (Ret tt, st_of
+               (start_blk (xi, yi, zi) (mk_speed_pos c) ++ passes (mcfg_of c) (Z.to_nat (Qfloor (Qabs (yf - yi) / delta))) (plast (start_blk (xi, yi, zi) (mk_speed_pos c))) true 1 w (qsign (yf - yi) * delta) ++
+                end_blk (pfirst (start_blk (xi, yi, zi) (mk_speed_pos c))) (last (passes (mcfg_of c) (Z.to_nat (Qfloor (Qabs (yf - yi) / delta))) (plast (start_blk (xi, yi, zi) (mk_speed_pos c))) true 1 w (qsign (yf - yi) * delta)) (plast (start_blk (xi, yi, zi) (mk_speed_pos c)))) (mk_speed_closed c)) sg')).
+    { rewrite <- H. unfold src_meander. rewrite Ho. destruct Hfin as [Hf|[zf Hf]]; subst fin; reflexivity. }
+    rewrite E. split; reflexivity.
+  - destruct (passes_loop c false w (qsign (xf - xi) * delta) (zrange 0 (Qfloor (Qabs (xf - xi) / delta)))
+                (start_blk (xi, yi, zi) (mk_speed_pos c)) 1 Hs) as [sg' H].
+    rewrite zrange_length in H.
+    assert (E : src_meander c [xi; yi; zi] fin w delta orientation mk_s0 = (Ret tt, st_of
+               (start_blk (xi, yi, zi) (mk_speed_pos c) ++ passes (mcfg_of c) (Z.to_nat (Qfloor (Qabs (xf - xi) / delta))) (plast (start_blk (xi, yi, zi) (mk_speed_pos c))) false 1 w (qsign (xf - xi) * delta) ++
+                end_blk (pfirst (start_blk (xi, yi, zi) (mk_speed_pos c))) (last (passes (mcfg_of c) (Z.to_nat (Qfloor (Qabs (xf - xi) / delta))) (plast (start_blk (xi, yi, zi) (mk_speed_pos c))) false 1 w (qsign (xf - xi) * delta)) (plast (start_blk (xi, yi, zi) (mk_speed_pos c)))) (mk_speed_closed c)) sg')).
+    { rewrite <- H. unfold src_meander. rewrite Ho. destruct Hfin as [Hf|[zf Hf]]; subst fin; reflexivity. }
+    rewrite E. split; reflexivity.
+Qed.
+Print Assumptions SRC_C14_meander.
+
+(* a 2-D initial position lies at the marker's depth *)
+Theorem SRC_C14_meander_2d : forall c xi yi fin xf yf w delta orientation ax,
+  fin = [xf; yf] \/ (exists zf, fin = [xf; yf; zf]) ->
+  (lower orientation = "x" /\ ax = true) \/ (lower orientation = "y" /\ ax = false) ->
+  fst (src_meander c [xi; yi] fin w delta orientation mk_s0) = Ret tt /\
+  mk_path (snd (src_meander c [xi; yi] fin w delta orientation mk_s0)) = meander (mcfg_of c) (xi, yi, mk_depth c) (xf, yf) w delta ax.
+Proof.
+  intros c xi yi fin xf yf w delta orientation ax Hfin Hor.
+  assert (Hs : start_blk (xi, yi, mk_depth c) (mk_speed_pos c) <> []) by discriminate.
+  destruct Hor as [[Ho Ha]|[Ho Ha]]; subst ax.
+  - destruct (passes_loop c true w (qsign (yf - yi) * delta) (zrange 0 (Qfloor (Qabs (yf - yi) / delta)))
+                (start_blk (xi, yi, mk_depth c) (mk_speed_pos c)) 1 Hs) as [sg' H].
+    rewrite zrange_length in H.
+    assert (E : src_meander c [xi; yi] fin w delta orientation mk_s0 = (Ret tt, st_of
+               (start_blk (xi, yi, mk_depth c) (mk_speed_pos c) ++ passes (mcfg_of c) (Z.to_nat (Qfloor (Qabs (yf - yi) / delta))) (plast (start_blk (xi, yi, mk_depth c) (mk_speed_pos c))) true 1 w (qsign (yf - yi) * delta) ++
+                end_blk (pfirst (start_blk (xi, yi, mk_depth c) (mk_speed_pos c))) (last (passes (mcfg_of c) (Z.to_nat (Qfloor (Qabs (yf - yi) / delta))) (plast (start_blk (xi, yi, mk_depth c) (mk_speed_pos c))) true 1 w (qsign (yf - yi) * delta)) (plast (start_blk (xi, yi, mk_depth c) (mk_speed_pos c)))) (mk_speed_closed c)) sg')).
+    { rewrite <- H. unfold src_meander. rewrite Ho. destruct Hfin as [Hf|[zf Hf]]; subst fin; reflexivity. }
+    rewrite E. split; reflexivity.
+  - destruct (passes_loop c false w (qsign (xf - xi) * delta) (zrange 0 (Qfloor (Qabs (xf - xi) / delta)))
+                (start_blk (xi, yi, mk_depth c) (mk_speed_pos c)) 1 Hs) as [sg' H].
+    rewrite zrange_length in H.
+    assert (E : src_meander c [xi; yi] fin w delta orientation mk_s0 = (Ret tt, st_of
+               (start_blk (xi, yi, mk_depth c) (mk_speed_pos c) ++ passes (mcfg_of c) (Z.to_nat (Qfloor (Qabs (xf - xi) / delta))) (plast (start_blk (xi, yi, mk_depth c) (mk_speed_pos c))) false 1 w (qsign (xf - xi) * delta) ++
+                end_blk (pfirst (start_blk (xi, yi, mk_depth c) (mk_speed_pos c))) (last (passes (mcfg_of c) (Z.to_nat (Qfloor (Qabs (xf - xi) / delta))) (plast (start_blk (xi, yi, mk_depth c) (mk_speed_pos c))) false 1 w (qsign (xf - xi) * delta)) (plast (start_blk (xi, yi, mk_depth c) (mk_speed_pos c)))) (mk_speed_closed c)) sg')).
+    { rewrite <- H. unfold src_meander. rewrite Ho. destruct Hfin as [Hf|[zf Hf]]; subst fin; reflexivity. }
+    rewrite E. split; reflexivity.
+Qed.
+Print Assumptions SRC_C14_meander_2d.
+
